@@ -364,10 +364,17 @@ pub fn encode_time(params: &[Value]) -> NativeResult {
     let milli = default_number(params, 3, 0.0)?;
 
     match params {
-        [Value::Number(hour), Value::Number(min), Value::Number(sec), ..] => NaiveDate::default()
-            .and_hms_milli_opt(*hour as u32, *min as u32, *sec as u32, milli as u32)
-            .map(Value::from)
-            .ok_or(NativeError::from("invalid time parameters")),
+        [Value::Number(hour), Value::Number(min), Value::Number(sec), ..]
+            if [*hour, *min, *sec, milli].iter().all(|v| *v >= 0.0) =>
+        {
+            NaiveDate::default()
+                .and_hms_milli_opt(*hour as u32, *min as u32, *sec as u32, milli as u32)
+                .map(Value::from)
+                .ok_or(NativeError::from("invalid time parameters"))
+        }
+        [Value::Number(_), Value::Number(_), Value::Number(_), ..] => {
+            Err(NativeError::from("invalid time parameters")) // negative or NaN
+        }
         [_, _, _, ..] => Err(NativeError::WrongParameterType),
         _ => Err(NativeError::WrongParameterCount(3)),
     }
